@@ -47,6 +47,7 @@ fn cases() -> Vec<(Fmt, Binding, Shape)> {
         (Fmt::Webp, Binding::Default, Shape::Single),
         (Fmt::Mp4, Binding::Default, Shape::WithIngredient),
         (Fmt::Jpeg, Binding::Default, Shape::WithRedaction),
+        (Fmt::Jpeg, Binding::NoTrust, Shape::WithIngredient),
     ]
 }
 
